@@ -18,6 +18,7 @@ BigK(j, k) == [i \in 1..(MaxLen - 1) |-> IF i - 1 < j THEN 0 ELSE IF i - 1 < k T
 \* "diag": dyadic models (entries are exponents k_i, probabilities 2^k_i summing to 2^P)
 DyadicSum(s) == SumSeq([i \in 1..Len(s) |-> Pow2(s[i])])
 Refs(n) == { q \in [1..n -> {0, 1, 2, 4}] : SumSeq(q) = 4 }
+BigN == { n \in {2, 3, 5, 7, 100, 1000, 4097, Pow2(P) \div 3, Pow2(P) \div 2, Pow2(P) - 1, Pow2(P)} : n >= 2 /\ n <= Pow2(P) }
 \* "floatclass": entries are classes of floating point weights
 \*   0 zero, 1 one, 2 tiny (1e-30), 3 big (1e30), 4 negative, 5 NaN, 6 +infinity, 7 three
 FloatBad(s) == \E i \in 1..Len(s) : s[i] \in {4, 5, 6}
@@ -42,6 +43,7 @@ PredictedTablesValid ==
     /\ Kind = "fast" => (AcceptFast(seq, P) => Valid(FastTable(seq, P), P) /\ RoundTrip(FastTable(seq, P), P))
     /\ Kind = "leaky" => (AcceptLeaky(Len(seq) + 1, P) => Valid(LeakyTable(seq, BitLen(MaxVal) - 1, Len(seq) + 1, 0, P), P))
     /\ Kind = "leakybig" => (Len(seq) = 2 /\ AcceptLeaky(MaxLen, P) => Valid(LeakyTable(BigK(seq[1], seq[2]), BitLen(MaxVal) - 1, MaxLen, 0, P), P))
+    /\ Kind = "uniformbig" => \A n \in BigN : (Pow2(P) \div n) >= 1 /\ Pow2(P) - (n - 1) * (Pow2(P) \div n) >= 1
     /\ Kind = "uniform" => \A n \in 2..Pow2(P) : Valid(UniformTable(n, P), P) /\ RoundTrip(UniformTable(n, P), P)
 
 Rows(tab) == [i \in 1..Len(tab) |-> <<tab[i][1], tab[i][2], tab[i][3]>>]
@@ -72,9 +74,13 @@ DiagLaws == (Kind = "diag" /\ Len(seq) >= 2 /\ DyadicSum(seq) = Pow2(P)) =>
     \A r \in Refs(Len(seq)) : KlNum(seq, r, P) >= 0 /\ ((\A i \in 1..Len(seq) : r[i] > 0) => RevKlNum(seq, r, P) >= 0)
 EmitFloatClass == (Kind = "floatclass" /\ Len(seq) >= 1) => PrintT(<<"CASE", ToJson(
     [k |-> "floatclass", B |-> B, P |-> P, classes |-> seq, must_reject |-> FloatMustReject(seq), fits |-> Len(seq) + 1 < Pow2(P)])>>)
+\* "uniformbig": UniformModel at real probability widths, a sample of ranges n (the whole table is given by ppb and last)
+EmitUniformBig == (Kind = "uniformbig" /\ seq = <<>>) => PrintT(<<"CASE", ToJson(
+    [k |-> "uniformbig", B |-> B, P |-> P,
+     cases |-> { [n |-> n, ppb |-> Pow2(P) \div n, last |-> Pow2(P) - (n - 1) * (Pow2(P) \div n)] : n \in BigN }])>>)
 EmitUniform == (Kind = "uniform" /\ seq = <<>>) => PrintT(<<"CASE", ToJson(
     [k |-> "uniform", B |-> B, P |-> P,
      cases |-> [n \in 1..(Pow2(P) + 3) |-> [n |-> n - 1, accept |-> AcceptUniform(n - 1, P),
                  table |-> IF AcceptUniform(n - 1, P) THEN Rows(UniformTable(n - 1, P)) ELSE <<>>]]])>>)
-Emit == EmitFixed /\ EmitFast /\ EmitLeaky /\ EmitLeakyBig /\ EmitUniform /\ EmitDiag /\ EmitFloatClass
+Emit == EmitFixed /\ EmitFast /\ EmitLeaky /\ EmitLeakyBig /\ EmitUniform /\ EmitDiag /\ EmitFloatClass /\ EmitUniformBig
 =============================================================================
